@@ -30,10 +30,7 @@ EXPECTED = [
 
 
 def build(S, tier, seed):
-    act = _base(S)
-    S.verify(put.AtomicWrite())
-    S.verify(put.PutMove())
-    S.verify(put.TryTrash(), active=[put.PutMove().key, put.PutRemoveFile().key])
+    act = put.leaf_vcs(S)
     put.trash_file_in_vc(S, conservation=False)
 
 
